@@ -134,6 +134,9 @@ impl FeoxStore {
         ttl_seconds: u64,
     ) -> Result<i64> {
         if ttl_seconds > 0 {
+            if !self.enable_ttl {
+                return Err(FeoxError::TtlNotEnabled);
+            }
             self.ensure_ttl_write_supported()?;
         }
         self.validate_new_key(key)?;
@@ -467,6 +470,9 @@ impl FeoxStore {
         ttl_seconds: u64,
     ) -> Result<bool> {
         if ttl_seconds > 0 {
+            if !self.enable_ttl {
+                return Err(FeoxError::TtlNotEnabled);
+            }
             self.ensure_ttl_write_supported()?;
         }
         let start = std::time::Instant::now();
